@@ -33,6 +33,15 @@ def step (t : List String) : String :=
           let c := fpmPoint m n My Mx dx efl lam fdx shx shy mask f j i
           s!"{fmtFloat c.re} {fmtFloat c.im}"
       | _, _, _, _, _, _, _ => "bad-op"
+  | "emb" :: m :: n :: m' :: n' :: rest =>
+      -- `Model.C05.embed`: the zero-pad embedding the pad-invariance theorems are about
+      match m.toNat?, n.toNat?, m'.toNat?, n'.toNat?, floats? rest with
+      | some m, some n, some m', some n', some data =>
+          if data.length ≠ 2 * m * n ∨ m' < m ∨ n' < n then "bad-op" else
+          let f := parseGrid m n data
+          fmtGrid ((Array.range m').map fun j => (Array.range n').map fun i =>
+            (embed m n m' n' (fun a b => getC f a b) j i : C))
+      | _, _, _, _, _ => "bad-op"
   | "bab" :: m :: n :: My :: Mx :: rest =>
       match m.toNat?, n.toNat?, My.toNat?, Mx.toNat?, floats? rest with
       | some m, some n, some My, some Mx, some (dx :: efl :: lam :: fdx :: data) =>
